@@ -6,11 +6,12 @@ CONSTANTS
   MaxNonce = 1
   MaxBal = 1
   MaxCode = 1
+  Del = TRUE
   MaxJournal = 2
   MaxSnap = 2
   MaxIds = 2
 VIEW view
 CONSTRAINT Bound
 INVARIANTS TypeOK SnapshotsNested RevertRestoresExactly
-PROPERTIES RevertStep ReopenEqualsContent FinalisedClean DiskStable ProofYieldsValueOrAbsence
+PROPERTIES ResetQuirk RevertStep ReopenEqualsContent FinalisedClean DiskStable ProofYieldsValueOrAbsence
 CHECK_DEADLOCK FALSE
